@@ -11,6 +11,10 @@ def specLine (db : DB) (line : String) : DB × String :=
     | .list [.atom "state"] => (db, "contents=" ++ showList showPoint db)
     | .list [.atom "reopen"] => (db, "ok unit")
     | .list (.atom "idx" :: _) => (db, "n/a")
+    | .list (.atom "codec" :: _ :: pt :: _) =>
+      match parsePoint pt with
+      | some (some p) => (db, "back=" ++ showPoint p)     -- the specification of a round trip: identity
+      | _ => (db, "bad-op")
     | .list [.atom "eval", q, pt] =>
       match parseQuery q, parsePoint pt with
       | some q, some (some p) => (db, if sem q p then "ok true" else "ok false")
